@@ -2,6 +2,8 @@
 and the method-specific shape/encoding clauses."""
 
 def _method(name, define, loops, functions, weak=False, extra=None):
+    extra = dict(extra or {})
+    cap = extra.pop("set_cap", None)
     j = {"name": "method_%s%s" % (name, "_weak" if weak else ""),
          "props": ["C04"] if weak else ["C01", "C02", "C03", "C04", "C05", "C06", "C07"],
          "functions": functions,
@@ -9,7 +11,12 @@ def _method(name, define, loops, functions, weak=False, extra=None):
          "verif_src": ["models/strings.c"], "repo_src": ["lib/util-base64.c"],
          "loops": loops,
          "unwind": 10, "bounds": {"SPAN": 64, "STR": 32, "SPANEXACT": 24}, "mem_gb": 6, "timeout": 600}
-    j.update(extra or {})
+    if cap and not weak:
+        j["defs"].append("SET_CAP=%d" % cap)
+        j["bound"] = "strlen (setting) < %d (longer than any hash of the method; the weak-precondition job covers memory safety for unbounded settings)" % cap
+    elif not weak:
+        j["bound"] = "strlen (setting) < 512"
+    j.update(extra)
     return j
 
 MD5_LOOPS = [
@@ -24,4 +31,37 @@ MD5_LOOPS = [
 JOBS = [
     _method("md5crypt", "M_md5crypt", MD5_LOOPS, ["crypt_md5crypt_rn"]),
     _method("md5crypt", "M_md5crypt", MD5_LOOPS, ["crypt_md5crypt_rn"], weak=True),
+
+]
+
+def _sha_loops(fn, helper, blk):
+    st = "xv_sha_state == %d && xv_sha_ctx == scratch && xv_phrase_absorbed >= 3"
+    # the stretching loop runs exactly the parsed number of rounds (C01, C11):
+    # 5000 unless a rounds= field was parsed, then the parsed value
+    rounds_ok = "(xv_parse_n == 0 ? rounds == 5000 : rounds == xv_parse_log[0].v)"
+    return [
+        {"function": helper, "anchor": "for (cnt = len; cnt >= %d; cnt -= %d)" % (blk, blk),
+         "invariant": "cnt <= len && xv_sha_state == 1 && xv_sha_ctx == ctx && xv_phrase_absorbed >= 3", "decreases": "cnt"},
+        {"function": fn, "anchor": "for (cnt = phr_size; cnt > %d; cnt -= %d)" % (blk, blk),
+         "invariant": "cnt <= phr_size && " + st % 1, "decreases": "cnt"},
+        {"function": fn, "anchor": "for (cnt = phr_size; cnt > 0; cnt >>= 1)",
+         "invariant": "cnt <= phr_size && " + st % 1, "decreases": "cnt"},
+        {"function": fn, "anchor": "for (cnt = 0; cnt < phr_size; ++cnt)",
+         "invariant": "cnt <= phr_size && " + st % 1, "decreases": "phr_size - cnt"},
+        {"function": fn, "anchor": "for (cnt = 0; cnt < (size_t) 16 + (size_t) result[0]; ++cnt)",
+         "invariant": "cnt <= 271 && " + st % 1, "decreases": "271 - cnt"},
+        {"function": fn, "anchor": "for (cnt = 0; cnt < rounds; ++cnt)",
+         "invariant": "cnt <= rounds && " + rounds_ok + " && " + st % 0, "decreases": "rounds - cnt"},
+    ]
+
+SHA_EXTRA = {"late_src": ["models/snprintf.c"], "timeout": 1200, "mem_gb": 10, "set_cap": 128}
+JOBS += [
+    _method("sha256crypt", "M_sha256crypt", _sha_loops("_crypt_crypt_sha256crypt_rn", "SHA256_Update_recycled", 32),
+            ["crypt_sha256crypt_rn", "SHA256_Update_recycled"], extra=SHA_EXTRA),
+    _method("sha512crypt", "M_sha512crypt", _sha_loops("_crypt_crypt_sha512crypt_rn", "sha512_process_recycled_bytes", 64),
+            ["crypt_sha512crypt_rn", "sha512_process_recycled_bytes"], extra=SHA_EXTRA),
+    _method("sha256crypt", "M_sha256crypt", _sha_loops("_crypt_crypt_sha256crypt_rn", "SHA256_Update_recycled", 32),
+            ["crypt_sha256crypt_rn", "SHA256_Update_recycled"], weak=True, extra=SHA_EXTRA),
+    _method("sha512crypt", "M_sha512crypt", _sha_loops("_crypt_crypt_sha512crypt_rn", "sha512_process_recycled_bytes", 64),
+            ["crypt_sha512crypt_rn", "sha512_process_recycled_bytes"], weak=True, extra=SHA_EXTRA),
 ]
